@@ -115,3 +115,74 @@ Proof.
     + intros u Hu. apply in_flat_map. exists d. auto.
     + intro F. rewrite forallb_forall in F. apply F. exact H.
 Qed.
+
+(* ---- dependencies beyond a part's own symbol uses ---- *)
+Lemma nth_error_mapi_from {A B} (f : nat -> A -> B) : forall l i0 k,
+  nth_error (mapi_from f i0 l) k = option_map (f (i0 + k)%nat) (nth_error l k).
+Proof.
+  induction l as [|x r IH]; intros i0 k; [destruct k; reflexivity|].
+  destruct k as [|k]; simpl; [rewrite Nat.add_0_r; reflexivity|].
+  rewrite IH. replace (S i0 + k)%nat with (i0 + S k)%nat by lia. reflexivity.
+Qed.
+
+Definition with_extra (g : graph) (bs : list binding) (s i : nat) (p : part) : part :=
+  mkPart (p_can_remove p) (p_force_ts p) (p_imports p) (p_deps p ++ user_extra g bs s i) (p_declares p) (p_uses p).
+
+Lemma get_part_add_bindings g bs s i :
+  get_part (add_bindings g bs) s i = option_map (with_extra g bs s i) (get_part g s i).
+Proof.
+  unfold get_part, get_file, add_bindings. simpl g_files. rewrite nth_error_mapi_from. simpl.
+  destruct (nth_error (g_files g) s) as [f|]; simpl; [|reflexivity].
+  destruct (f_repr f); try reflexivity. rewrite nth_error_mapi_from. reflexivity.
+Qed.
+
+Lemma nat_mem_In x l : nat_mem x l = true <-> In x l.
+Proof.
+  unfold nat_mem. rewrite existsb_exists. split.
+  - intros [y [H E]]. apply Nat.eqb_eq in E. subst. exact H.
+  - intro H. exists x. split; [exact H | apply Nat.eqb_refl].
+Qed.
+
+(* model side: after linking the import bindings, a live part that uses an
+   import keeps alive every re-export statement on the resolution chain and
+   every part declaring the imported symbol in the file it resolves to *)
+Lemma import_bindings_closed g bs b i p d :
+  let g' := add_bindings g bs in
+  In b bs -> In i (b_users b) ->
+  live g' (IPart (b_file b) i) -> get_part g' (b_file b) i = Some p ->
+  In d (binding_deps g b) -> live g' (IPart (fst d) (snd d)).
+Proof.
+  intros g' Hb Hi L P Hd. unfold g' in *. rewrite get_part_add_bindings in P.
+  destruct (get_part g (b_file b) i) as [p0|] eqn:P0; [|discriminate P]. simpl in P. inversion P; subst p.
+  eapply live_dep; [exact L | rewrite get_part_add_bindings, P0; reflexivity |].
+  destruct d as [t j]. simpl. apply in_or_app. right. unfold user_extra. apply in_flat_map.
+  exists b. split; [exact Hb|]. rewrite Nat.eqb_refl. simpl.
+  apply nat_mem_In in Hi. rewrite Hi. exact Hd.
+Qed.
+
+Lemma pair_mem_In d l : pair_mem d l = true -> In d l.
+Proof.
+  unfold pair_mem. rewrite existsb_exists. intros [e [H E]]. apply andb_true_iff in E as [E1 E2].
+  apply Nat.eqb_eq in E1, E2. destruct d, e. simpl in *. subst. exact H.
+Qed.
+
+(* dump side: the check run on every dumped graph implies the same closure for
+   the real Dependencies *)
+Lemma bindings_ok_closed g bs b i d :
+  bindings_ok g bs = true -> In b bs -> In i (b_users b) ->
+  live g (IPart (b_file b) i) -> In d (binding_deps g b) -> live g (IPart (fst d) (snd d)).
+Proof.
+  unfold bindings_ok. intros H Hb Hi L Hd.
+  rewrite forallb_forall in H. specialize (H b Hb). rewrite forallb_forall in H. specialize (H i Hi).
+  destruct (get_part g (b_file b) i) as [p|] eqn:P; [|discriminate H].
+  rewrite forallb_forall in H. specialize (H d Hd). apply pair_mem_In in H.
+  destruct d as [t j]. eapply live_dep; eauto.
+Qed.
+
+(* generated uses (GenerateSymbolImportAndUse: runtime helpers such as __toESM,
+   __commonJS, wrapper and exports symbols of wrapped files) are symbol uses: the
+   part of the runtime / of the wrapped file that declares the symbol stays live *)
+Lemma generated_uses_closed g s i p u t j :
+  deps_cover_uses g -> live g (IPart s i) -> get_part g s i = Some p -> In u (p_uses p) ->
+  declares g t j u -> live g (IPart t j).
+Proof. intros C L P U D. apply (no_dangling g s i p u t j C L P U D). Qed.
